@@ -23,18 +23,18 @@ ob("C05.find_total", "-", {"C05": "P", "C01": "H", "C04": "H", "C02": "H", "C03"
 ob("C05.products_floor", "c05::products_floor", {"C05": "H", "C01": "H"},
    "forall i<4888: PRODUCTS[i] >= 48 and PRODUCTS[i-1] < PRODUCTS[i] (table of the .snip file; cross-check of the Verus table lemma)", ["lookups::PRODUCTS"])
 ob("C05.five_safe", "c05::five_safe", {"C05": "P"},
-   "forall five slots over {52 cards, blank}, any repetition/order: hand_rank_value, hand_rank_value_and_hand, hand_rank, hand_rank_value_validated, hand_rank_validated return normally (no panic/overflow/out-of-bounds), agree, value <= 7462; search = its contract",
+   "forall five slots over {52 cards, blank}, any repetition/order: hand_rank_value_and_hand returns normally (no panic/overflow/out-of-bounds), value <= 7462, hand returned; search = its contract. The wrappers (hand_rank_value, hand_rank, *_validated) are total by C01.entry_points",
    EVAL5 + ["Five::hand_rank", "Five::hand_rank_value_validated", "Five::hand_rank_validated", "Five::is_valid"],
    unwind=9, stubs=[FIND_STUB], timeout=900, weight=3, concretise=["C05.blank_five_invalid"])
 ob("C05.blank_five_invalid", "c05::blank_five_invalid", {"C05": "P"},
    "forall five slots over {cards, blank} with at least one blank: value 0, hand_rank() is Invalid, validated forms too (search = its contract; the table fact 'no product below 48' is C05.products_floor)",
    EVAL5 + ["Five::hand_rank", "HandRank::is_invalid"], unwind=9, stubs=[FIND_STUB], timeout=900, weight=3)
 ob("C05.six_safe", "c05::six_safe", {"C05": "P"},
-   "forall six slots over {cards, blank}, any repetition: all five entry points of Six return normally; five-card evaluation = its total contract (any value <= 7462, hand unchanged)",
+   "forall six slots over {cards, blank}, any repetition: Six::hand_rank_value_and_hand returns normally, value <= 7462; five-card evaluation = its total contract (any value <= 7462, hand unchanged); wrappers total by C02.six_entry_points",
    ["Six::hand_rank_value_and_hand", "Six::hand_rank_value", "Six::hand_rank", "Six::hand_rank_value_validated", "Six::hand_rank_validated", "Six::five_from_permutation", "Five::sort"],
    unwind=27, stubs=[TOTAL_STUB], timeout=900, weight=3)
 ob("C05.seven_safe", "c05::seven_safe", {"C05": "P"},
-   "forall seven slots over {cards, blank}, any repetition: all five entry points of Seven return normally; five-card evaluation = its total contract",
+   "forall seven slots over {cards, blank}, any repetition: Seven::hand_rank_value_and_hand returns normally, value <= 7462; five-card evaluation = its total contract; wrappers total by C02.seven_entry_points",
    ["Seven::hand_rank_value_and_hand", "Seven::hand_rank_value", "Seven::hand_rank", "Seven::hand_rank_value_validated", "Seven::hand_rank_validated", "Seven::five_from_permutation", "Five::sort"],
    unwind=31, stubs=[TOTAL_STUB], timeout=1200, weight=4)
 ob("C05.find_kb", "c05::find_kb", {"C05": "P"},
@@ -53,9 +53,9 @@ for g, cats in [("distinct", "straight flush / flush / straight / high card (257
     ob("C01.rep_%s" % g, "c01::rep_%s" % g, {"C01": "P", "C02": "H", "C06": "H", "C13": "H", "C03": "H", "C09": "H", "C08": "H", "C04": "H"},
        "for EVERY class of %s (symbolic sorted rank tuple + flush flag): the canonical hand of the class evaluates, through the real code end to end (real search), to ordinal(class), in 1..=7462" % cats,
        EVAL5, unwind=15, timeout=1500, weight=4, concretise=["C01.direct_any"])
-ob("C01.entry_points", "c01::entry_points", {"C01": "P", "C04": "P", "C06": "P"},
-   "forall five words, forall v: if hand_rank_value_and_hand returns (v, self) then hand_rank_value() == v, hand_rank() == HandRank::from(v), hand_rank_value_validated() == (valid ? v : 0) without evaluating invalid hands, hand_rank_validated() == from(that), evaluate::five_cards == that; is_valid exact",
-   ["Five::hand_rank_value", "Five::hand_rank", "Five::hand_rank_value_validated", "Five::hand_rank_validated", "evaluate::five_cards", "Five::is_valid"],
+ob("C01.entry_points", "c01::entry_points", {"C01": "P", "C04": "P", "C06": "P", "C05": "P"},
+   "forall five words, forall v: if hand_rank_value_and_hand returns (v, self) then hand_rank_value() == v, hand_rank() == HandRank::from(v), hand_rank_value_validated() == (valid ? v : 0) without evaluating invalid hands, evaluate::five_cards == that; is_valid exact",
+   ["Five::hand_rank_value", "Five::hand_rank", "Five::hand_rank_value_validated", "evaluate::five_cards", "Five::is_valid"],
    unwind=9, stubs=[FIXED5], timeout=900, weight=2)
 for g in ["flush", "distinct_nonflush", "quads", "full_house", "trips", "two_pair", "pair"]:
     ob("C01.direct_%s" % g, "c01::direct_%s" % g, {"C01": "P"},
@@ -84,14 +84,20 @@ ob("C02.seven_min", "c02::seven_min", {"C02": "P", "C09": "P"},
    "forall seven distinct real cards, any slot order: hand_rank_value_and_hand().0 == min over ALL 21 weight-5 membership masks of V (five-card evaluation = ghost V)",
    ["Seven::hand_rank_value_and_hand", "Seven::five_from_permutation", "Seven::FIVE_CARD_PERMUTATIONS"], unwind=130, stubs=[V_STUB], timeout=2400, weight=6,
    concretise=["C02.seven_rule_based"])
-ob("C02.six_entry_points", "c02::six_entry_points", {"C02": "P", "C04": "P", "C06": "P"},
-   "forall six words, forall v: if Six::hand_rank_value_and_hand returns (v, hand) then hand_rank_value() == v, hand_rank() == from(v), hand_rank_value_validated() == (is_valid ? v : 0), hand_rank_validated() == from(that)",
-   ["Six::hand_rank_value", "Six::hand_rank", "Six::hand_rank_value_validated", "Six::hand_rank_validated", "Six::is_valid"],
+ob("C02.six_entry_points", "c02::six_entry_points", {"C02": "P", "C04": "P", "C06": "P", "C05": "P"},
+   "forall six words, forall v: if Six::hand_rank_value_and_hand returns (v, hand) then hand_rank_value() == v, hand_rank() == from(v), hand_rank_value_validated() == (is_valid ? v : 0)",
+   ["Six::hand_rank_value", "Six::hand_rank", "Six::hand_rank_value_validated", "Six::is_valid"],
    unwind=12, stubs=[FIXED6], timeout=1200, weight=3)
-ob("C02.seven_entry_points", "c02::seven_entry_points", {"C02": "P", "C04": "P", "C06": "P"},
-   "forall seven words, forall v: if Seven::hand_rank_value_and_hand returns (v, hand) then hand_rank_value() == v, hand_rank() == from(v), hand_rank_value_validated() == (is_valid ? v : 0), hand_rank_validated() == from(that)",
-   ["Seven::hand_rank_value", "Seven::hand_rank", "Seven::hand_rank_value_validated", "Seven::hand_rank_validated", "Seven::is_valid"],
+ob("C02.seven_entry_points", "c02::seven_entry_points", {"C02": "P", "C04": "P", "C06": "P", "C05": "P"},
+   "forall seven words, forall v: if Seven::hand_rank_value_and_hand returns (v, hand) then hand_rank_value() == v, hand_rank() == from(v), hand_rank_value_validated() == (is_valid ? v : 0)",
+   ["Seven::hand_rank_value", "Seven::hand_rank", "Seven::hand_rank_value_validated", "Seven::is_valid"],
    unwind=12, stubs=[FIXED7], timeout=1500, weight=4)
+VAL5 = {"target": "<ckc_rs::cards::five::Five as ckc_rs::cards::HandRanker>::hand_rank_value_validated", "with": "crate::stubs::five_validated_fixed", "proved_by": "none needed: conditional on the callee returning v; v arbitrary"}
+VAL6 = {"target": "<ckc_rs::cards::six::Six as ckc_rs::cards::HandRanker>::hand_rank_value_validated", "with": "crate::stubs::six_validated_fixed", "proved_by": "none needed: conditional on the callee returning v; v arbitrary"}
+VAL7 = {"target": "<ckc_rs::cards::seven::Seven as ckc_rs::cards::HandRanker>::hand_rank_value_validated", "with": "crate::stubs::seven_validated_fixed", "proved_by": "none needed: conditional on the callee returning v; v arbitrary"}
+ob("C02.validated_rank", "c02::validated_rank", {"C04": "P", "C06": "P", "C05": "P"},
+   "forall words, forall v: if hand_rank_value_validated returns v then hand_rank_validated() == HandRank::from(v), for Five, Six and Seven",
+   ["Five::hand_rank_validated", "Six::hand_rank_validated", "Seven::hand_rank_validated"], unwind=5, stubs=[VAL5, VAL6, VAL7], timeout=900, weight=2)
 ob("C09.min_lemma", "c09::min_lemma", {"C09": "P"},
    "forall value functions V on the five-subsets of seven slots: min over the 21 subsets == min over the seven six-subsets of (min over the six subsets inside), the seven-min <= every six-min, every six-min <= every five inside it (composition of the two value contracts)",
    [], unwind=130, timeout=900, weight=2)
@@ -109,3 +115,13 @@ ob("C08.seven_shift", "c08::seven_shift", {"C08": "P"},
 ob("C08.five_shift_direct", "c08::five_shift_direct", {"C08": "P"},
    "forall five distinct cards, any order: the real evaluator gives the shifted hand the same value (no stubs)",
    EVAL5 + ["Five::shift_suit"], tier="thorough", unwind=15, timeout=3600, weight=8)
+
+# ------------------------------------------------------------------ native-only concretiser bodies
+ob("C02.six_rule_based", "c02::six_rule_based", {"C02": "N"},
+   "native only: six distinct cards, value == min over subsets of the rule-based ordinal", [], engine="native")
+ob("C02.seven_rule_based", "c02::seven_rule_based", {"C02": "N"},
+   "native only: seven distinct cards, value == min over subsets of the rule-based ordinal", [], engine="native")
+ob("C06.cards_link_native", "c06::cards_link_native", {"C06": "N"},
+   "native only: hand_rank() of five distinct cards has the category and class of the cards", [], engine="native")
+ob("C13.name_native", "c13::name_native", {"C13": "N"},
+   "native only: predicates agree with hand_rank().name", [], engine="native")
